@@ -9,7 +9,8 @@ evaluated in Coq on the OBSERVED classes; inherited-field behaviour, "no class i
 AbstractStructure are evaluated on the implementation directly.  Two enumerated streams (harness/c14lattice.py):
 the default-fault lattice (field spelling x default spelling x falsy/truthy value x placement; judged on the
 implementation: a default the field itself rejects, or a mutable literal, must make the class statement raise) and
-the hierarchy-shape lattice (diamonds and other non-linear shapes x overriding classes x override kinds; through the
+the name-fault lattice (every spelling of a member, bare Structure class by annotation / assignment and ClassReference
+included, x invalid names x placement x guards: the statement must raise) and the hierarchy-shape lattice (diamonds and other non-linear shapes x overriding classes x override kinds; through the
 Coq pipeline and, on the implementation, field map against attribute lookup along the MRO)."""
 import copy
 import random
@@ -496,6 +497,15 @@ def run(rep, tier):
         rep.stat("default-lattice", "default-spelling:" + case[3])
         if st_ == "fail":
             findings.append((key, what, rp))
+    # stream 1d: the lattice of name faults: member spelling x invalid name x placement x guards (enumerated)
+    for case in L.name_cases(tier, core.seed()):
+        st_, key, what, rp = L.judge_name_case(case)
+        rep.count("name-lattice", 1, (case[0], case[1], case[4], L.NAME_PLACEMENTS[case[5]][0], case[6], st_))
+        rep.stat("name-lattice", "status:" + st_)
+        rep.stat("name-lattice", "member:%s-%s" % (case[0], case[1]))
+        rep.stat("name-lattice", "placement:" + L.NAME_PLACEMENTS[case[5]][0])
+        if st_ == "fail":
+            findings.append((key, what, rp))
     # stream 2: every single-fault variant of a valid class statement, guards on and off
     for i in range(n_fault):
         tag = "f%d" % i
@@ -645,6 +655,8 @@ def run(rep, tier):
 def replay(obj):
     if obj.get("lattice") == "default":
         return L.replay_default(obj)
+    if obj.get("lattice") == "name":
+        return L.replay_name(obj)
     prog = obj.get("program")
     if prog is None:
         print(obj.get("detail", "no program recorded"))
